@@ -38,7 +38,11 @@ fn digest(o: &mut Vec<i64>, s: &[u32]) {
   else { let mut acc: u64 = 0; for x in s { acc = (acc + *x as u64) % 2305843009213693952; } o.extend([s.len() as i64, acc as i64, s[0] as i64, *s.last().unwrap() as i64]); }
 }
 fn svc_id(d: i64, f: i64) -> String { format!("{}#f{}", DIDS[d as usize], f) }
-fn service_json(id: &str, type_ok: bool, endpoint: Value) -> Value { json!({"id": id, "type": if type_ok { "RevocationBitmap2022" } else { "LinkedDomains" }, "serviceEndpoint": endpoint}) }
+/// type code: 0 another type, 1 RevocationBitmap2022, 2 [other, RevocationBitmap2022], 3 [RevocationBitmap2022, other] (a service may carry several types)
+fn service_json(id: &str, tcode: i64, endpoint: Value) -> Value {
+  let ty = match tcode { 0 => json!("LinkedDomains"), 1 => json!("RevocationBitmap2022"), 2 => json!(["CredentialStatusRegistry", "RevocationBitmap2022"]), _ => json!(["RevocationBitmap2022", "CredentialStatusRegistry"]) };
+  json!({"id": id, "type": ty, "serviceEndpoint": endpoint})
+}
 fn endpoint_text(svc: &Service) -> Option<String> { serde_json::to_value(svc.service_endpoint()).ok()?.as_str().map(|s| s.to_string()) }
 fn sorted_set(v: &[i64]) -> Vec<u32> { let mut s: Vec<u32> = v.iter().map(|x| *x as u32).collect(); s.sort(); s.dedup(); s }
 /// every member is reported revoked, its non-member neighbours are not, and the count agrees
@@ -70,7 +74,7 @@ pub fn exec(case: &[i64]) -> Outcome {
         o
       } else {
         let legacy = BaseEncoding::encode(text.as_bytes(), Base::Base64);
-        let svc2 = Service::from_json_value(service_json(&svc_id(1, 7), true, json!(format!("{PREFIX}{legacy}")))).unwrap();
+        let svc2 = Service::from_json_value(service_json(&svc_id(1, 7), 1, json!(format!("{PREFIX}{legacy}")))).unwrap();
         match RevocationBitmap::try_from(&svc2) {
           Ok(b) => { let mut obs = vec![0]; if b == bm { digest(&mut obs, &set); } else { obs.push(-6); } let mut o = Outcome::new(obs).class("legacy-decoded"); if b != bm || !probe(&b, &set) { o = o.fail("the legacy form decodes to a different bitmap"); } o }
           Err(_) => Outcome::new(vec![1]).class("legacy-rejected").fail("an endpoint in the legacy double-encoded form does not decode"),
@@ -78,9 +82,9 @@ pub fn exec(case: &[i64]) -> Outcome {
       }
     }
     3 => {
-      let type_ok = take1(&mut v).unwrap() != 0; let eptag = take1(&mut v).unwrap(); let text = String::from_utf8_lossy(&take_bytes(&mut v).unwrap()).to_string();
+      let tcode = take1(&mut v).unwrap(); let type_ok = tcode != 0; let eptag = take1(&mut v).unwrap(); let text = String::from_utf8_lossy(&take_bytes(&mut v).unwrap()).to_string();
       let ep = if eptag == 1 { json!(text) } else if eptag == 0 { json!([text, "https://other.example/"]) } else { json!({"origins": [text]}) };
-      let svc = match Service::from_json_value(service_json(&svc_id(1, 7), type_ok, ep)) { Ok(s) => s, Err(_) => return Outcome::new(vec![-7]).class("unbuildable").trivial() };
+      let svc = match Service::from_json_value(service_json(&svc_id(1, 7), tcode, ep)) { Ok(s) => s, Err(_) => return Outcome::new(vec![-7]).class("unbuildable").trivial() };
       let want: Option<Vec<u32>> = if type_ok && eptag == 1 { members_of_endpoint(&text) } else { None };
       match RevocationBitmap::try_from(&svc) {
         Ok(b) => { let mut obs = vec![0]; match &want { Some(s) if !s.windows(2).all(|w| w[0] < w[1]) => obs.extend([1, NONCANON]), Some(s) if b == bitmap_of(s) => digest(&mut obs, s), _ => obs.push(-6) } let mut o = Outcome::new(obs).class("endpoint-accepted");
@@ -90,11 +94,11 @@ pub fn exec(case: &[i64]) -> Outcome {
     }
     4 => {
       let ns = take1(&mut v).unwrap();
-      let mut svcs: Vec<(String, bool, Option<Vec<u32>>)> = vec![];
-      for _ in 0..ns { let (d, _r, f) = (take1(&mut v).unwrap(), take1(&mut v).unwrap(), take1(&mut v).unwrap()); let t = take1(&mut v).unwrap() != 0; let bf = take1(&mut v).unwrap(); let s = sorted_set(take_lp(&mut v).unwrap()); svcs.push((svc_id(d, f), t, if bf != 0 { Some(s) } else { None })); }
+      let mut svcs: Vec<(String, bool, Option<Vec<u32>>)> = vec![]; let mut tcodes: Vec<i64> = vec![];
+      for _ in 0..ns { let (d, _r, f) = (take1(&mut v).unwrap(), take1(&mut v).unwrap(), take1(&mut v).unwrap()); let tc = take1(&mut v).unwrap(); tcodes.push(tc); let t = tc != 0; let bf = take1(&mut v).unwrap(); let s = sorted_set(take_lp(&mut v).unwrap()); svcs.push((svc_id(d, f), t, if bf != 0 { Some(s) } else { None })); }
       let nops = take1(&mut v).unwrap(); let mut ops = vec![];
       for _ in 0..nops { let op = take1(&mut v).unwrap(); let qd = { let f = take1(&mut v).unwrap(); let x = take1(&mut v).unwrap(); if f != 0 { Some(x) } else { None } }; let qf = { let f = take1(&mut v).unwrap(); let x = take1(&mut v).unwrap(); if f != 0 { Some(x) } else { None } }; ops.push((op, qd, qf, take_lp(&mut v).unwrap().iter().map(|x| *x as u32).collect::<Vec<u32>>())); }
-      let sv_json: Vec<Value> = svcs.iter().map(|(id, t, s)| match s { Some(s) => service_json(id, *t, json!(format!("{PREFIX}{}", BaseEncoding::encode(&zcomp(&rser(s)), Base::Base64Url)))), None => service_json(id, *t, json!("https://plain.example/")) }).collect();
+      let sv_json: Vec<Value> = svcs.iter().zip(tcodes.iter()).map(|((id, _t, s), tc)| match s { Some(s) => service_json(id, *tc, json!(format!("{PREFIX}{}", BaseEncoding::encode(&zcomp(&rser(s)), Base::Base64Url)))), None => service_json(id, *tc, json!("https://plain.example/")) }).collect();
       let mut doc = match CoreDocument::from_json_value(json!({"id": DID1, "service": sv_json})) { Ok(d) => d, Err(_) => return Outcome::new(vec![-7]).class("unbuildable").trivial().fail("case document does not build") };
       let mut expect: Vec<Option<Vec<u32>>> = svcs.iter().map(|(_, t, s)| if *t { s.clone() } else { None }).collect();
       let mut why: Option<String> = None; let mut obs = vec![];
@@ -146,8 +150,9 @@ fn case12(kind: i64, set: &[u32]) -> Vec<i64> {
   let mut s = set.to_vec(); s.sort(); s.dedup();
   let mut c = vec![kind]; c.push(s.len() as i64); c.extend(s.iter().map(|x| *x as i64)); put_bytes(&mut c, &zcomp(&rser(&s))); c
 }
-fn case3(type_ok: bool, eptag: i64, text: &str) -> Vec<i64> {
-  let mut c = vec![3, type_ok as i64, eptag]; put_bytes(&mut c, text.as_bytes());
+fn case3(type_ok: bool, eptag: i64, text: &str) -> Vec<i64> { case3t(type_ok as i64, eptag, text) }
+fn case3t(tcode: i64, eptag: i64, text: &str) -> Vec<i64> {
+  let mut c = vec![3, tcode, eptag]; put_bytes(&mut c, text.as_bytes());
   let cands = text.strip_prefix(PREFIX).map(candidates).unwrap_or_default();
   c.push(cands.len() as i64);
   // a corrupted stream can deserialise to a roaring structure whose members are not strictly increasing: recorded as the marker set
@@ -158,7 +163,7 @@ type Svc = (i64, i64, bool, Option<Vec<u32>>);
 type Op = (i64, Option<i64>, Option<i64>, Vec<u32>);
 fn case4(svcs: &[Svc], ops: &[Op]) -> Vec<i64> {
   let mut c = vec![4, svcs.len() as i64];
-  for (d, f, t, s) in svcs { c.extend([*d, 0, *f, *t as i64, s.is_some() as i64]); let s = s.clone().unwrap_or_default(); c.push(s.len() as i64); c.extend(s.iter().map(|x| *x as i64)); }
+  for (k, (d, f, t, s)) in svcs.iter().enumerate() { c.extend([*d, 0, *f, if *t { 1 + ((k as i64 + s.as_ref().map_or(0, |x| x.len() as i64)) % 3) } else { 0 }, s.is_some() as i64]); let s = s.clone().unwrap_or_default(); c.push(s.len() as i64); c.extend(s.iter().map(|x| *x as i64)); }
   c.push(ops.len() as i64);
   for (op, qd, qf, idxs) in ops { c.push(*op); match qd { Some(x) => c.extend([1, *x]), None => c.extend([0, 0]) } match qf { Some(x) => c.extend([1, *x]), None => c.extend([0, 0]) } c.push(idxs.len() as i64); c.extend(idxs.iter().map(|x| *x as i64)); }
   // the codec table: every set any service can hold along the history (computed by set arithmetic on every service for every prefix of the operations)
@@ -188,6 +193,7 @@ pub fn gen(rng: &mut Rng, thorough: bool, sink: &mut Sink) {
   for s in sets.iter().filter(|s| s.len() <= 5000) { sink.case(case12(2, s), "legacy"); }
   // (3) endpoints that are not valid bitmap services
   let good = format!("{PREFIX}{}", BaseEncoding::encode(&zcomp(&rser(&[1, 5, 70000])), Base::Base64Url));
+  sink.case(case3t(2, 1, &good), "endpoint-good-several-types"); sink.case(case3t(3, 1, &good), "endpoint-good-several-types");
   sink.case(case3(true, 1, &good), "endpoint-good"); sink.case(case3(false, 1, &good), "endpoint-wrong-type"); sink.case(case3(true, 0, &good), "endpoint-set"); sink.case(case3(true, 2, &good), "endpoint-map");
   for bad in ["data:application/octet-stream;base64;", "data:text/plain;base64,", "https://example.com/", "data:application/octet-stream;base64"] { sink.case(case3(true, 1, &format!("{bad}{}", &good[PREFIX.len()..])), "endpoint-prefix"); }
   for cut in [0usize, 1, 2, 3, 4, 5, 8, 12, 16] { if good.len() > PREFIX.len() + cut { sink.case(case3(true, 1, &good[..good.len() - cut]), "endpoint-truncated"); sink.case(case3(true, 1, &format!("{PREFIX}{}", &good[PREFIX.len() + cut..])), "endpoint-head-cut"); } }
